@@ -90,6 +90,7 @@ class C10Plan(Plan):
     ]
     BASE = {
         "n_steps": (5, 18), "n_nodes": (5, 24), "early_prob": [0.5, 0.8], "kind_off_prob": 0.12,
+        "sweep_prob": [0.15, 0.3, 0.45], "poly_prob": [0.05, 0.15, 0.3],
         "weights": {
             "at": 5, "at_num": 1, "mk_partial": 4, "mk_derivative": 1.5, "mk_differential": 3,
             "mk_located": 2, "pat": 4, "dat": 2, "comp": 3, "compat": 2, "lcomp": 1.5, "asx": 5,
